@@ -38,13 +38,14 @@ SPEC = dict(
         dict(name='set', harness='h_set', enforce='AARE_set'),
         dict(name='set_done', harness='h_set_done', enforce='AARE_set_done'),
         dict(name='try_reset', harness='h_try_reset', enforce='AARE_try_reset'),
+        dict(name='try_reset_release', harness='h_try_reset', enforce='AARE_try_reset', defines=['VF_RELEASE_CFG']),   # NDEBUG build, overlapping consumers
         dict(name='lemma_aare_init', harness='lemma_aare_init', mode='lemma'),
         dict(name='lemma_aare_protocol', harness='lemma_aare_protocol', mode='lemma'),
     ],
     assumptions=[
         'std::mutex / std::lock_guard behave as a monitor: mutual exclusion; acquire = other threads may have run (protected state havocked subject to the monitor invariant)',
         'stream contract: next() senders do not overlap (single consumer), so nobody else resets the event between the completion of the consumer\'s async_wait and its try_reset(): '
-        'try_reset() is entered with the inner event ready (the code asserts it)',
+        'try_reset() is entered with the inner event ready (the code asserts it) - unit try_reset only; unit try_reset_release drops this assumption (release build: assertions are no-ops, several consumers)',
         'the inner async_manual_reset_event obeys its contract (group event_v1): set() makes it ready and wakes every waiter, reset() only un-signals, ready() reads the flag; '
         'waiters touch it outside the monitor only by pushing themselves (readiness unchanged)',
         'stream_view::next()/cleanup() (template composition: let_value_with_stop_token, stop callback calling set_done) are not reached',
